@@ -17,6 +17,7 @@ def parseOp : String → Option Op
   | "Timer" => some .timer
   | "RangeWithInterval" => some .rangeWithInterval
   | "RangeWithStepAndInterval" => some .rangeWithInterval     -- the same clause with `step=` from the case line
+  | "RepeatWithInterval" => some .rangeWithInterval           -- `RangeWithInterval(0, count, d) |> Map(_ ↦ item)`: see `run`
   | "ThrottleTime" => some .throttleTime
   | "SampleTime" => some .sampleTime
   | "BufferWithTime" => some .bufferWithTime
@@ -76,7 +77,16 @@ def run (c : Case) : String :=
   else if obs.startsWith "harness-panic" then s!"res {c.id} {obs.replace ":" "="}"
   else
   match parseOp (c.getD "op" "?"), parseObs obs with
-  | some op, some (tr, flags) =>
+  | some op, some (tr0, flags) =>
+    -- RepeatWithInterval(item, count, d) (operator_creation.go:326-339) is `RangeWithInterval(0, count, d)` with every value mapped to
+    -- `item`: judged by the range clause over [0 : count) after putting the index back in place of each delivered `item`
+    -- (anything else than `item` becomes a value no range contains)
+    let tr : TimedTrace :=
+      if c.getD "op" "?" == "RepeatWithInterval" then
+        { tr0 with dels := tr0.dels.mapIdx (fun k e => match e.n with
+            | .next v => { e with n := .next (if v == intField c "item" then (k : Int) else -1) }
+            | _ => e) }
+      else tr0
     let cfg : Cfg := { op := op, d := natField c "d", d2 := natField c "d2", n := natField c "n",
                        a := intField c "a", b := intField c "b", step := ((c.get "step").bind String.toNat?).getD 1 }
     let hto := if flags == "T" then " hto=1" else ""
